@@ -13,7 +13,7 @@ DESCRIPTION = {
              "code-point aligned prefix of the requested reason; onClose <=1 time, only at/after loss delivery, nothing delivered/written afterwards; wasClean => "
              "close frames in both directions and reported (code,reason) are the peer's; sendMessage outside OPEN raises Disconnected; is_closed resolved iff closed; "
              "teardown: once closing, the transport is dropped within closeHandshakeTimeout(+serverConnectionDropTimeout) with a silent peer.  encode_truncate has a "
-             "direct PBT.  Local sends include synchronous ones that leave a write queued; in a third of the configurations the loss of a transport the endpoint closed itself is delivered by the event loop on its next turn (as the real frameworks do); the transport state is recorded at the moment onClose runs.  Exhaustive job: every sequence of 3 (thorough: 4) events from a 15-step alphabet after the handshake x both roles x failByDrop x scripted/loop-delivered loss x timeouts off/1 s.  Non-trivial = history with >=2 different close-relevant sources; distinct by digest of (config, steps)."),
+             "direct PBT.  Local sends include synchronous ones that leave a write queued; in a third of the configurations the loss of a transport the endpoint closed itself is delivered by the event loop on its next turn (as the real frameworks do); the transport state is recorded at the moment onClose runs.  Exhaustive job: every sequence of 3 (thorough: 4) events from a 16-step alphabet after the handshake x both roles x failByDrop x scripted/loop-delivered loss x timeouts off/1 s.  Non-trivial = history with >=2 different close-relevant sources; distinct by digest of (config, steps)."),
     "assumptions": ["Twisted/asyncio transport contracts emulated in memory; the harness delivers connectionLost exactly once", "reason wording is not compared"],
 }
 
@@ -79,6 +79,8 @@ class Interp:
         self.log_len_at_close = None
         self.out_len_at_close = None
         self.closing_since = None
+        self.t_close_sent = None        # when our close frame was first seen on the wire
+        self.t_both_closes = None       # client: when close frames had travelled in both directions (from then on the server has drop_to seconds to drop TCP)
         self.sources = set()
         self.mk = b"\x11\x22\x33\x44" if self.is_server else None
         self._collect()
@@ -340,6 +342,16 @@ class Interp:
         closes = [i for i, f in enumerate(frames) if f.opcode == 8]
         if len(closes) > 1:
             self.fail("more-than-one-close-frame", "%d close frames written" % len(closes))
+        now = self.d.now()
+        if closes and self.t_close_sent is None:
+            self.t_close_sent = now
+        if not self.is_server and closes and self.valid_peer_closes and not self.invalid_peer_closes and self.t_both_closes is None:
+            self.t_both_closes = now
+        if (self.t_both_closes is not None and self.cfg["drop_to"] > 0 and self.rank == 3 and not self.ep.drop_requested and not self.ep.loss_delivered
+                and now > self.t_both_closes + self.cfg["drop_to"] + 1e-6):
+            # whatever the server keeps sending, the deadline for it to drop TCP runs from the completion of the closing handshake
+            self.fail("closing-not-bounded|server-drop-deadline-passed", "closing handshake complete at t=%.2f, serverConnectionDropTimeout %s s, now t=%.2f: transport not dropped" % (
+                self.t_both_closes, self.cfg["drop_to"], now))
         if closes:
             after = frames[closes[0] + 1:]
             if any(f.opcode in (0, 1, 2) for f in after) or rest:
@@ -440,9 +452,13 @@ class Interp:
                 bound = cfg["drop_to"]           # client (initiator or replier) waiting for the server to drop TCP
             if bound is not None:
                 t0 = self.d.now()
-                self.steps.append(("teardown-advance", bound))
+                # the deadline runs from the moment the wait began (our close frame out / both close frames exchanged), not from now
+                ref = self.t_both_closes if (bound == cfg["drop_to"] and self.valid_peer_closes and not self.is_server and self.t_both_closes is not None) else (
+                    self.t_close_sent if (closed_by_me and not any_peer_close and self.t_close_sent is not None) else t0)
+                wait = max(0.0, ref + bound - t0)
+                self.steps.append(("teardown-advance", wait))
                 try:
-                    self.d.advance(bound + 0.001)
+                    self.d.advance(wait + 0.001)
                 except Exception as e:
                     self.fail("exception-in-timer|" + exc_key(e), repr(e))
                 self._collect()
@@ -559,7 +575,7 @@ def machine(col, seed, n):
 
 ALPHABET = [("local_close", 1000, None), ("local_close", 3000, "bye"), ("local_send", "message"), ("local_send", "message-sync-held"), ("local_send", "ping"),
             ("peer_close", "valid", 1000, ""), ("peer_close", "valid", 3001, "x"), ("peer_close", "badcode", 1005, ""), ("peer_data", "text"), ("peer_data", "violation"),
-            ("advance", "to", 0.0), ("peer_drop", False), ("peer_drop", True), ("deliver_own_drop",), ("peer_bytes_after_drop",)]
+            ("advance", "to", 0.0), ("advance", "amount", 0.6), ("peer_drop", False), ("peer_drop", True), ("deliver_own_drop",), ("peer_bytes_after_drop",)]
 
 
 def short_histories(col, server, fbd, depth):
